@@ -23,6 +23,15 @@ def has (d : Dict V) (k : Nat) : Bool := (d.find? k).isSome
 /-- `d.get(k, dflt)` -/
 def getD (d : Dict V) (k : Nat) (dflt : V) : V := (d.find? k).getD dflt
 
+/-- `d[k] = v`: an existing key keeps its position, a new key goes last -/
+def set (d : Dict V) (k : Nat) (v : V) : Dict V :=
+  match d with
+  | [] => [(k, v)]
+  | (k', v') :: rest => if k' = k then (k', v) :: rest else (k', v') :: set rest k v
+
+/-- `{k: v for (k, v) in pairs}`: later pairs overwrite earlier ones with the same key -/
+def ofPairs (l : List (Nat × V)) : Dict V := l.foldl (fun d kv => d.set kv.1 kv.2) []
+
 end Dict
 
 section Mean
